@@ -339,7 +339,10 @@ class BaseInterpolatablePreProcessor:
     ) -> BaseIFilter | None:
         # Try to combine multiple filters into a single interpolatable variant
         assert len(filters) > 0
-        filter_ = next(filter(None, filters))
+        # a master that lists fewer filters than the others has None in that slot:
+        # like an empty include list, it adds nothing to the union below
+        filters = [f for f in filters if f is not None]
+        filter_ = filters[0]
         filter_class = type(filter_)
 
         if not all(
